@@ -392,7 +392,142 @@ class SearchExec:
         raise Undecided(f'find_kmers: {msg}')
 
     def sub(self, e, env):
-        return fold_consts(subst(e, {k: v for k, v in env.items() if k not in self.nosubst}))
+        e = fold_consts(subst(e, {k: v for k, v in env.items() if k not in self.nosubst}))
+        return self.fold_fields(e) if e is not None else None
+
+    def record_fields(self, call):
+        """field names (in order) and class defaults when `call` constructs a typing.NamedTuple class of the package, else None"""
+        if not isinstance(call, ast.Call) or any(isinstance(a, ast.Starred) for a in call.args) or any(k.arg is None for k in call.keywords):
+            return None
+        q = self.m.resolve(self.fi.module, call.func)
+        c = self.m.classes.get(q) if q else None
+        if c is None or not any(b in ('typing.NamedTuple', 'NamedTuple') or b.endswith('.NamedTuple') for b in c.bases) or c.methods.get('__new__'):
+            return None
+        names = [st.target.id for st in c.node.body if isinstance(st, ast.AnnAssign) and isinstance(st.target, ast.Name)]
+        defaults = {st.target.id: st.value for st in c.node.body if isinstance(st, ast.AnnAssign) and isinstance(st.target, ast.Name) and st.value is not None}
+        return names, defaults
+
+    def record_values(self, call):
+        """the field values of a NamedTuple construction, in field order (None when not evaluable)"""
+        rf = self.record_fields(call)
+        if rf is None:
+            return None
+        names, defaults = rf
+        vals = dict(zip(names, call.args))
+        if len(call.args) > len(names):
+            return None
+        for k in call.keywords:
+            if k.arg not in names or k.arg in vals:
+                return None
+            vals[k.arg] = k.value
+        for n in names:
+            if n not in vals:
+                if n not in defaults:
+                    return None
+                vals[n] = defaults[n]
+        return names, [vals[n] for n in names]
+
+    def fold_fields(self, e):
+        """`Record(a, b).field` -> the argument bound to that field; `(a, b)[0]` -> a  (after substitution of a table row)"""
+        ex = self
+
+        class F(ast.NodeTransformer):
+            def visit_Attribute(s2, node):
+                s2.generic_visit(node)
+                if isinstance(node.value, ast.Call):
+                    rv = ex.record_values(node.value)
+                    if rv is not None and node.attr in rv[0]:
+                        return copy.deepcopy(rv[1][rv[0].index(node.attr)])
+                return node
+
+            def visit_Subscript(s2, node):
+                s2.generic_visit(node)
+                i = node.slice
+                if isinstance(i, ast.Constant) and type(i.value) is int:
+                    elts = node.value.elts if isinstance(node.value, (ast.Tuple, ast.List)) else None
+                    if elts is None and isinstance(node.value, ast.Call):
+                        rv = ex.record_values(node.value)
+                        elts = rv[1] if rv is not None else None
+                    if elts is not None and not any(isinstance(x, ast.Starred) for x in elts) and -len(elts) <= i.value < len(elts):
+                        return copy.deepcopy(elts[i.value])
+                return node
+        if not any(isinstance(n, (ast.Attribute, ast.Subscript)) and isinstance(getattr(n, 'value', None), (ast.Call, ast.Tuple, ast.List)) for n in ast.walk(e)):
+            return e
+        return fold_consts(F().visit(e))
+
+    def bind_row(self, target, value, env, s):
+        """bind a (possibly nested) loop target to a table row: tuples / lists element-wise, NamedTuple constructions field-wise"""
+        if isinstance(target, ast.Name):
+            env[target.id] = value
+            return
+        if isinstance(target, (ast.Tuple, ast.List)) and not any(isinstance(t, ast.Starred) for t in target.elts):
+            elts = value.elts if isinstance(value, (ast.Tuple, ast.List)) else None
+            if elts is None and isinstance(value, ast.Call):
+                rv = self.record_values(value)
+                elts = rv[1] if rv is not None else None
+            if elts is not None and len(elts) == len(target.elts) and not any(isinstance(x, ast.Starred) for x in elts):
+                for t, x in zip(target.elts, elts):
+                    self.bind_row(t, x, env, s)
+                return
+        self.und(f'`for {u(s.target)} in {u(s.iter)[:40]}`: row `{u(value)[:40]}` cannot be unpacked statically')
+
+    def dict_rows(self, s, it):
+        """rows of `for ... in <dict display>.items() / .values() / .keys()` (or the dict itself, or dict(<literal pairs>)): a dict keeps
+        one entry per distinct key, so the table equals its list of entries only if the keys are provably pairwise distinct.
+        Returns the rows (after recording a violation when two keys can coincide), or None when `it` is not such a table."""
+        view = 'keys'
+        d = it
+        if isinstance(it, ast.Call) and isinstance(it.func, ast.Attribute) and it.func.attr in ('items', 'values', 'keys') and not it.args and not it.keywords:
+            view, d = it.func.attr, it.func.value
+        pairs = None
+        if isinstance(d, ast.Dict):
+            if any(k is None for k in d.keys):
+                self.und(f'`{u(s.iter)[:40]}`: a dict display with ** unpacking as the table of searches')
+            pairs = list(zip(d.keys, d.values))
+        elif isinstance(d, ast.Call) and isinstance(d.func, ast.Name) and d.func.id == 'dict' and self.m.resolve(self.fi.module, d.func) in (None, 'dict', 'builtins.dict'):
+            if not d.args and d.keywords and all(k.arg is not None for k in d.keywords):
+                pairs = [(ast.Constant(value=k.arg), k.value) for k in d.keywords]
+            elif len(d.args) == 1 and not d.keywords and isinstance(d.args[0], ast.Dict) and all(k is not None for k in d.args[0].keys):
+                pairs = list(zip(d.args[0].keys, d.args[0].values))
+            elif len(d.args) == 1 and not d.keywords and isinstance(d.args[0], (ast.Tuple, ast.List)) \
+                    and all(isinstance(e, (ast.Tuple, ast.List)) and len(e.elts) == 2 for e in d.args[0].elts):
+                pairs = [(e.elts[0], e.elts[1]) for e in d.args[0].elts]
+        if pairs is None:
+            return None
+        spec = self.spec
+
+        def strand_of(e):
+            if u(e) == f'{spec}.prefix':
+                return 'forward'
+            if isinstance(e, ast.Call) and self.m.resolve_call(self.fi, e) in ('gambit._cython.kmers.revcomp', 'gambit.seq.revcomp') \
+                    and [u(a) for a in e.args] == [f'{spec}.prefix'] and not e.keywords:
+                return 'reverse'
+            return None
+        clashes, unknown = [], []
+        for i in range(len(pairs)):
+            for j in range(i + 1, len(pairs)):
+                a, b = pairs[i][0], pairs[j][0]
+                if isinstance(a, ast.Constant) and isinstance(b, ast.Constant):
+                    if a.value == b.value:
+                        clashes.append(f'keys {u(a)} and {u(b)} are equal: the first entry is always overwritten')
+                elif u(a) == u(b):
+                    clashes.append(f'key {u(a)} occurs twice: the first entry is always overwritten')
+                elif {strand_of(a), strand_of(b)} == {'forward', 'reverse'}:
+                    clashes.append('the per-strand table is keyed by the search string: for a prefix equal to its reverse complement the forward entry is '
+                                   'overwritten and the forward strand is never searched')
+                else:
+                    unknown.append(f'{u(a)} / {u(b)}')
+        if clashes:
+            self.rep.add('K1', self.fi.site(s), 'the entries of the table of searches are all executed (the keys of a dict of searches are distinct for every k-mer spec)', False,
+                         expected='distinct constant keys (False / True, names), or a list of rows', found=clashes[0], stmt='search table keys')
+        elif unknown:
+            self.und(f'`{u(s.iter)[:40]}`: cannot show that the dict keys {unknown[0]} are always distinct (entries with equal keys overwrite each other)')
+        else:
+            self.rep.add('K1', self.fi.site(s), 'the entries of the table of searches are all executed (the keys of a dict of searches are distinct for every k-mer spec)', True,
+                         expected='distinct keys', found=[u(k) for k, _v in pairs], stmt='search table keys')
+        if view == 'items':
+            return [ast.Tuple(elts=[k, v], ctx=ast.Load()) for k, v in pairs]
+        return [v for _k, v in pairs] if view == 'values' else [k for k, _v in pairs]
 
     def is_search(self, node):
         return _has(node, lambda n: _is_find(n) or isinstance(n, (ast.Yield, ast.YieldFrom, ast.Return)))
@@ -473,6 +608,10 @@ class SearchExec:
         self.nr += 1
         r = f'__r{self.nr}'
         a = [self.sub(x, env) for x in call.args] + [None, None]
+        for x in a:
+            if x is not None and _has(x, lambda n: isinstance(n, ast.Attribute) and isinstance(n.value, ast.Call) and self.record_values(n.value) is None
+                                      and not (isinstance(n.value.func, ast.Name) and n.value.func.id in ('len',))):
+                self.und(f'find() argument `{u(x)[:50]}` reads a field of an object that is not evaluated (only tuples and NamedTuple rows are)')
         recv = self.sub(call.func.value, env)
         self.rep.require(isinstance(recv, ast.Name), f'find_kmers: find() receiver `{u(recv)[:40]}` is not a local of find_kmers')
         anchor = self.gen_stack[0]['stmt'] if self.gen_stack else stmt
@@ -712,6 +851,8 @@ class SearchExec:
             it = self.sub(s.iter, env)
             ctrl = _loop_ctrl(s.body)
             rows = self.generator_rows(it)
+            if rows is None and not s.orelse and not ctrl:
+                rows = self.dict_rows(s, it)
             if rows is not None:
                 it = ast.Tuple(elts=rows, ctx=ast.Load())
             elif not s.orelse and self.package_generator(it) is not None:
@@ -721,14 +862,7 @@ class SearchExec:
                 if any(isinstance(n, ast.Name) and n.id in bound and isinstance(n.ctx, ast.Store) for st in stmts_in(s.body) for t in assigned_targets(st) for n in ast.walk(t)):
                     self.und(f'`for {u(s.target)} in ...`: the row variables are reassigned inside the loop')
                 for row in it.elts:
-                    if isinstance(s.target, ast.Name):
-                        env[s.target.id] = row
-                    elif isinstance(s.target, (ast.Tuple, ast.List)) and all(isinstance(e, ast.Name) for e in s.target.elts) \
-                            and isinstance(row, (ast.Tuple, ast.List)) and len(row.elts) == len(s.target.elts):
-                        for e, x in zip(s.target.elts, row.elts):
-                            env[e.id] = x
-                    else:
-                        self.und(f'`for {u(s.target)} in {u(s.iter)[:40]}`: row `{u(row)[:40]}` cannot be unpacked statically')
+                    self.bind_row(s.target, row, env, s)
                     sig = self.block(s.body, env)
                     if sig:
                         return sig
@@ -2346,6 +2480,17 @@ _ATTRS_EDITS = [
      "\tarray: np.ndarray = attrib(init=False, repr=False)\n\n\tdef __attrs_post_init__(self):\n\t\tsuper().__attrs_post_init__()\n\t\tself.array = np.zeros(nkmers(self.k), dtype=bool)\n"),
     (_C, "class SetAccumulator(KmerAccumulator):", "@attrs(eq=False)\nclass SetAccumulator(KmerAccumulator):"),
 ]
+_FINDALL_D = _FINDALL.replace("start: int, end: int)", "start: int = 0, end: Optional[int] = None)")
+_DICT_NEEDLE = ("\tstrands = {\n\t\tkmerspec.prefix: (False, 0, -kmerspec.k),\n\t\trevcomp(kmerspec.prefix): (True, kmerspec.k, None),\n\t}\n\n"
+                "\tfor needle, (reverse, start, end) in strands.items():\n\t\toffset = kmerspec.prefix_len - 1 if reverse else 0\n\n"
+                "\t\tfor loc in _find_all(haystack, needle, start, end):\n\t\t\tyield KmerMatch(kmerspec, seq, loc + offset, reverse)\n")
+_DICT_FLAG = ("\tstrands = {\n\t\tFalse: (kmerspec.prefix, 0, -kmerspec.k),\n\t\tTrue: (revcomp(kmerspec.prefix), kmerspec.k, None),\n\t}\n\n"
+              "\tfor reverse, (needle, start, end) in strands.items():\n\t\toffset = kmerspec.prefix_len - 1 if reverse else 0\n\n"
+              "\t\tfor loc in _find_all(haystack, needle, start, end):\n\t\t\tyield KmerMatch(kmerspec, seq, loc + offset, reverse)\n")
+_NT = "class StrandSearch(NamedTuple):\n\tpattern: bytes\n\treverse: bool\n\tstart: int\n\tend: Optional[int]\n\tpos_offset: int\n\n\n"
+_DICT_NT = ("\tsearches = {\n\t\t'fwd': StrandSearch(kmerspec.prefix, False, 0, -kmerspec.k, 0),\n\t\t'rev': StrandSearch(revcomp(kmerspec.prefix), True, kmerspec.k, None, kmerspec.prefix_len - 1),\n\t}\n\n"
+            "\tfor search in searches.values():\n\t\tfor loc in _find_all(haystack, search.pattern, search.start, search.end):\n"
+            "\t\t\tyield KmerMatch(kmerspec, seq, loc + search.pos_offset, search.reverse)\n")
 VARIANTS = [
     V('forward restart after the whole prefix (overlaps missed)', 'B', _K, "\t\tyield KmerMatch(kmerspec, seq, loc, False)\n\n\t\tstart = loc + 1",
       "\t\tyield KmerMatch(kmerspec, seq, loc, False)\n\n\t\tstart = loc + kmerspec.prefix_len", 'K1'),
@@ -2503,6 +2648,34 @@ VARIANTS = [
       also=[(_SQ, "def seq_to_bytes(seq: 'DNASeq')", _S2B_TBL + "def seq_to_bytes(seq: 'DNASeq')")]),
     V('converter table lower-cases str on the way', 'B', _SQ, _S2B, _S2B_TBL_USE + _S2B, 'K10',
       also=[(_SQ, "def seq_to_bytes(seq: 'DNASeq')", _S2B_TBL.replace("return seq.encode('ascii')", "return seq.lower().encode('ascii')") + "def seq_to_bytes(seq: 'DNASeq')")]),
+    # ---- fifth round: the table of searches as a dict (entries with equal keys overwrite each other)
+    V('per-strand dict keyed by the search string, tuple values (seeded C01e): palindromic prefix loses the forward strand', 'B', _K, _FWD, "", 'K1',
+      also=[(_K, "\t# Find reverse\n\tprefix_rc = revcomp(kmerspec.prefix)\n" + _REV, _DICT_NEEDLE), (_K, "def find_kmers(kmerspec: KmerSpec, seq: 'DNASeq') -> Iterator[KmerMatch]:", _FINDALL_D + "def find_kmers(kmerspec: KmerSpec, seq: 'DNASeq') -> Iterator[KmerMatch]:")]),
+    V('per-strand dict keyed by the search string, NamedTuple values (seeded C06e)', 'B', _K, _FWD, "", 'K1',
+      also=[(_K, "\t# Find reverse\n\tprefix_rc = revcomp(kmerspec.prefix)\n" + _REV, _DICT_NT.replace("'fwd': StrandSearch", "kmerspec.prefix: StrandSearch").replace("'rev': StrandSearch", "revcomp(kmerspec.prefix): StrandSearch").replace("for search in searches.values():", "for pattern, search in searches.items():").replace("search.pattern, ", "pattern, ").replace("(kmerspec.prefix, False", "(False").replace("(revcomp(kmerspec.prefix), True", "(True")),
+            (_K, "def find_kmers(kmerspec: KmerSpec, seq: 'DNASeq') -> Iterator[KmerMatch]:", _NT.replace("\tpattern: bytes\n", "") + _FINDALL_D + "def find_kmers(kmerspec: KmerSpec, seq: 'DNASeq') -> Iterator[KmerMatch]:"),
+            (_K, "from typing import Optional, Any, Iterator\n", "from typing import Optional, Any, Iterator, NamedTuple\n")]),
+    V('dict(...) of pairs keyed by the search string', 'B', _K, _FWD, "", 'K1',
+      also=[(_K, "\t# Find reverse\n\tprefix_rc = revcomp(kmerspec.prefix)\n" + _REV, _DICT_NEEDLE.replace("strands = {\n\t\tkmerspec.prefix: (False, 0, -kmerspec.k),\n\t\trevcomp(kmerspec.prefix): (True, kmerspec.k, None),\n\t}\n", "strands = dict([(kmerspec.prefix, (False, 0, -kmerspec.k)), (revcomp(kmerspec.prefix), (True, kmerspec.k, None))])\n")),
+            (_K, "def find_kmers(kmerspec: KmerSpec, seq: 'DNASeq') -> Iterator[KmerMatch]:", _FINDALL_D + "def find_kmers(kmerspec: KmerSpec, seq: 'DNASeq') -> Iterator[KmerMatch]:")]),
+    V('E: the same table as a list of (search string, parameters) pairs - every row is executed', 'E', _K, _FWD, "",
+      also=[(_K, "\t# Find reverse\n\tprefix_rc = revcomp(kmerspec.prefix)\n" + _REV, _DICT_NEEDLE.replace("strands = {\n\t\tkmerspec.prefix: (False, 0, -kmerspec.k),\n\t\trevcomp(kmerspec.prefix): (True, kmerspec.k, None),\n\t}\n", "strands = [\n\t\t(kmerspec.prefix, (False, 0, -kmerspec.k)),\n\t\t(revcomp(kmerspec.prefix), (True, kmerspec.k, None)),\n\t]\n").replace("in strands.items():", "in strands:")),
+            (_K, "def find_kmers(kmerspec: KmerSpec, seq: 'DNASeq') -> Iterator[KmerMatch]:", _FINDALL_D + "def find_kmers(kmerspec: KmerSpec, seq: 'DNASeq') -> Iterator[KmerMatch]:")]),
+    V('E: per-strand dict keyed by the strand flag False / True', 'E', _K, _FWD, "",
+      also=[(_K, "\t# Find reverse\n\tprefix_rc = revcomp(kmerspec.prefix)\n" + _REV, _DICT_FLAG), (_K, "def find_kmers(kmerspec: KmerSpec, seq: 'DNASeq') -> Iterator[KmerMatch]:", _FINDALL_D + "def find_kmers(kmerspec: KmerSpec, seq: 'DNASeq') -> Iterator[KmerMatch]:")]),
+    V('dict keyed by the strand flag: reverse search starts at 0', 'B', _K, _FWD, "", 'K1',
+      also=[(_K, "\t# Find reverse\n\tprefix_rc = revcomp(kmerspec.prefix)\n" + _REV, _DICT_FLAG.replace("(revcomp(kmerspec.prefix), kmerspec.k, None)", "(revcomp(kmerspec.prefix), 0, None)")),
+            (_K, "def find_kmers(kmerspec: KmerSpec, seq: 'DNASeq') -> Iterator[KmerMatch]:", _FINDALL_D + "def find_kmers(kmerspec: KmerSpec, seq: 'DNASeq') -> Iterator[KmerMatch]:")]),
+    V('dict keyed by the strand flag, both entries under the key True', 'B', _K, _FWD, "", 'K1',
+      also=[(_K, "\t# Find reverse\n\tprefix_rc = revcomp(kmerspec.prefix)\n" + _REV, _DICT_FLAG.replace("\t\tFalse: (kmerspec.prefix", "\t\tTrue: (kmerspec.prefix")),
+            (_K, "def find_kmers(kmerspec: KmerSpec, seq: 'DNASeq') -> Iterator[KmerMatch]:", _FINDALL_D + "def find_kmers(kmerspec: KmerSpec, seq: 'DNASeq') -> Iterator[KmerMatch]:")]),
+    V("E: per-strand dict keyed 'fwd' / 'rev' with NamedTuple rows, iterated by .values()", 'E', _K, _FWD, "",
+      also=[(_K, "\t# Find reverse\n\tprefix_rc = revcomp(kmerspec.prefix)\n" + _REV, _DICT_NT), (_K, "def find_kmers(kmerspec: KmerSpec, seq: 'DNASeq') -> Iterator[KmerMatch]:", _NT + _FINDALL_D + "def find_kmers(kmerspec: KmerSpec, seq: 'DNASeq') -> Iterator[KmerMatch]:"),
+            (_K, "from typing import Optional, Any, Iterator\n", "from typing import Optional, Any, Iterator, NamedTuple\n")]),
+    V("NamedTuple rows: position offset fields swapped between the strands", 'B', _K, _FWD, "", 'K1',
+      also=[(_K, "\t# Find reverse\n\tprefix_rc = revcomp(kmerspec.prefix)\n" + _REV, _DICT_NT.replace("False, 0, -kmerspec.k, 0)", "False, 0, -kmerspec.k, kmerspec.prefix_len - 1)").replace("None, kmerspec.prefix_len - 1)", "None, 0)")),
+            (_K, "def find_kmers(kmerspec: KmerSpec, seq: 'DNASeq') -> Iterator[KmerMatch]:", _NT + _FINDALL_D + "def find_kmers(kmerspec: KmerSpec, seq: 'DNASeq') -> Iterator[KmerMatch]:"),
+            (_K, "from typing import Optional, Any, Iterator\n", "from typing import Optional, Any, Iterator, NamedTuple\n")]),
     # ---- fourth round: bugs hidden inside refactorings
     V('E: searches through a generator that returns on the miss and restarts by reassigning its parameter', 'E', _K, _FWD, "\tk = kmerspec.k\n\tseqlen = len(haystack)\n\n\tfor loc in _find_all(haystack, kmerspec.prefix, 0, -k):\n\t\tyield KmerMatch(kmerspec, seq, loc, False)\n",
       also=[(_K, _REV, "\tfor loc in _find_all(haystack, prefix_rc, k, seqlen):\n\t\tyield KmerMatch(kmerspec, seq, loc + kmerspec.prefix_len - 1, True)\n"),
